@@ -615,6 +615,75 @@ func relockScenario(r *vx.Rand) {
 	w.Quiesce(scenarioTimeout)
 }
 
+// failingSchema is a SchemaLeaseChecker that reports a schema change while `fail` is set.
+type failingSchema struct{ fail *atomic.Bool }
+
+func (f failingSchema) CheckBySchemaVer(txnTS uint64, startSchemaVer transaction.SchemaVer) (*transaction.RelatedSchemaChange, error) {
+	if f.fail.Load() {
+		return nil, fmt.Errorf("verif: schema changed")
+	}
+	return nil, nil
+}
+
+// c06EarlyFail: a pessimistic transaction holding locks whose Commit fails with a DEFINITE error before or around its
+// prewrite phase: PD stops answering the client's timestamp requests when Commit is called (the async-commit / 1PC paths fetch
+// a min commit ts first; 2PC needs the commit ts after the prewrites), or the schema-lease checker reports a change (checked
+// before the prewrites in the async / 1PC paths, after them in 2PC).  Every commit mode, locks in one or several regions.
+// Whatever the exit, the locks the transaction took must be gone afterwards.
+func c06EarlyFail(r *vx.Rand) {
+	nKeys := 3 + r.Intn(3)
+	keys := keyPool[:nKeys]
+	w := hub.NewWorld(rec, hub.Options{Full: lean, Seed: r.U64(), Splits: pick(r, layoutsOf(1+r.Intn(3)))})
+	defer w.Close()
+	for _, k := range keys {
+		w.TrackKey(k)
+	}
+	if !seed(w, subset(r, keys, 50)) {
+		return
+	}
+	a := w.NewClient("a")
+	step := func(f func()) bool { return runAll(w, scenarioTimeout, f) }
+	fail := new(atomic.Bool)
+	how := pick(r, []string{"tso", "tso", "schema", "schema", "none"})
+	mine := subsetNonEmpty(r, keys, 50)
+	if !step(func() {
+		a.Begin(true, pick(r, modes))
+		if how == "schema" || r.Chance(20) {
+			a.Txn().SetSchemaLeaseChecker(failingSchema{fail})
+		}
+		if r.Bool() {
+			a.Lock(mine, "-")
+		} else {
+			for _, k := range mine {
+				a.Lock([][]byte{k}, "-")
+			}
+		}
+		for i, k := range mine {
+			if r.Chance(75) {
+				a.Set(k, val(0, 6, i))
+			}
+		}
+	}) {
+		return
+	}
+	rec.Count("c06:early-fail:" + how)
+	res := ""
+	if !step(func() {
+		switch how {
+		case "tso":
+			a.SetTSODown(true)
+		case "schema":
+			fail.Store(true)
+		}
+		res = a.Commit()
+		a.SetTSODown(false)
+	}) {
+		return
+	}
+	rec.Count("c06:early-fail:commit:" + res)
+	w.Quiesce(scenarioTimeout)
+}
+
 // bigKey makes the i-th key of a family of long keys sharing a one-byte prefix (they sort by i).
 func bigKey(prefix byte, i, size int) []byte {
 	k := make([]byte, size)
@@ -781,6 +850,10 @@ func runC06() {
 			fam = "agg-expire"
 			aggExpireScenario(rnd.Fork())
 			rec.Count("c06:family:agg-expire")
+		case i%12 == 9:
+			fam = "early-fail"
+			c06EarlyFail(rnd.Fork())
+			rec.Count("c06:family:early-fail")
 		case i%12 == 3:
 			fam = "relock"
 			relockScenario(rnd.Fork())
